@@ -491,6 +491,32 @@ theorem rendered_digits (items : List Tok) (up : Bool) (text : Str)
 theorem comma_digits (s : Str) (f : Bool) : digitsOf (commaLoop f s) = digitsOf s :=
   commaLoop_digits s f
 
+/-- Accuracy, thousands separator, the split at the decimal point (round 5): for a point-free
+integer part `p` and fraction `q`, printCommaSep groups `p` only and appends `.q` untouched … -/
+theorem comma_sep_split (p q : Str) (hp : '.' ∉ p) (hq : '.' ∉ q) :
+    printCommaSep p = commaLoop true p ∧
+    printCommaSep (p ++ '.' :: q) = commaLoop true p ++ '.' :: q :=
+  ⟨printCommaSep_no_point p hp, printCommaSep_point p q hp hq⟩
+
+/-- … so for EVERY text with at most one decimal point (all that `%.*f` produces) the whole
+function, not only its integer loop, keeps the digits and the point … -/
+theorem comma_sep_digits (text : Str) (h : text.count '.' ≤ 1) :
+    digitsOf (printCommaSep text) = digitsOf text :=
+  printCommaSep_digits text h
+
+/-- … and deleting the separators gives the input back, byte for byte. -/
+theorem comma_sep_preserves_text (text : Str) (h : text.count '.' ≤ 1) (hc : ∀ c ∈ text, c ≠ ',') :
+    (printCommaSep text).filter (· ≠ ',') = text :=
+  printCommaSep_strip text h hc
+
+/-- the hypothesis is needed and satisfiable: with a second point the code (`len(subStr) == 2`)
+drops everything after the integer part; with one point nothing is lost (both on the `comma`
+transcript: `s`, `s.25`, `s.1.2` for every length 0..48) -/
+theorem comma_sep_second_point_dropped :
+    printCommaSep (bs "1234.5.6") = bs "1,234" ∧
+    digitsOf (printCommaSep (bs "1234.5.6")) ≠ digitsOf (bs "1234.5.6") ∧
+    (bs "1234.5").count '.' ≤ 1 := by decide +kernel
+
 theorem percents_no_digits (n : Nat) : digitsOf (percents n) = [] := by
   induction n with
   | zero => rfl
